@@ -403,7 +403,8 @@ pub fn delta_expr(x: &Xml) -> Result<Node, String>
 	};
 	Ok(match x.tag.as_str()
 	{
-		"UntypedIntegerLiteral" =>
+		// (an integer literal, with or without a `type` attribute, under either element name)
+		"UntypedIntegerLiteral" | "TypedIntegerLiteral" =>
 		{
 			let mut n = Node::new("Int").attr("value", x.get("value").unwrap_or("?"));
 			if let Some(t) = x.get("type")
@@ -477,7 +478,7 @@ pub fn delta_expr(x: &Xml) -> Result<Node, String>
 			kids(1)?;
 			let op = x.get("op").unwrap_or("?");
 			let inner = &x.children[0];
-			if op == "Negative" && inner.tag == "UntypedIntegerLiteral"
+			if op == "Negative" && (inner.tag == "UntypedIntegerLiteral" || inner.tag == "TypedIntegerLiteral")
 			{
 				if let Some(src) = inner.get("src")
 				{
@@ -611,7 +612,9 @@ pub fn delta_decl(x: &Xml) -> Result<Node, String>
 			{
 				return Err(format!("ConstantDeclaration with {} children", x.children.len()));
 			}
-			Node::new("Const").attr("name", x.get("identifier").unwrap_or("?")).attr("flags", flags).child(delta_type(&x.children[1])?).child(delta_expr(&x.children[0])?)
+			// one child is the type and one the value, in either order (the property does not fix it)
+			let (ty, value) = if is_type_tag(&x.children[0].tag) { (&x.children[0], &x.children[1]) } else { (&x.children[1], &x.children[0]) };
+			Node::new("Const").attr("name", x.get("identifier").unwrap_or("?")).attr("flags", flags).child(delta_type(ty)?).child(delta_expr(value)?)
 		}
 		"FunctionDeclaration" =>
 		{
